@@ -307,6 +307,45 @@ def rule_K(prog, chk):
     chk.extra["keyword_prefix_clashes"] = ["%s<%s" % c_ for c_ in clashes]
 
 
+def rule_B(prog, chk):
+    """B - sibling builders establish the same state.  The methods `buildFromX` / `resetFromX` / `initFromX` of one class are alternative
+    ways of putting the object in its built state (a reader picks the one that matches what the file holds): a state member that all
+    the siblings but one set (a `_defined` flag, a count) is forgotten by that one - the object rebuilt through it answers as if it had
+    not been built (a reloaded masked meshing reports the counts of the complete grid)."""
+    import c08_order
+    eff = c08_order.Effects(prog)
+    n = 0
+    for K in sorted(prog.classes):
+        meths = [f for f in prog.funcs if f.cls == K and f.body is not None and f.kind == "method"]
+        by = {}
+        for f in meths:
+            m = re.match(r"(buildFrom|resetFrom|initFrom)", f.short)
+            if m:
+                by.setdefault(m.group(1), []).append(f)
+        for pre, fs in sorted(by.items()):
+            if len({f.short for f in fs}) < 3:
+                continue
+            whole = {f.usr for f in fs if any(x["k"] in ("Assign", "OpCall") and x.get("op") == "=" and x["c"][0] is not None and
+                                              x["c"][0]["k"] == "UnOp" and x["c"][0].get("op") == "*" and x["c"][0]["c"][0] is not None and x["c"][0]["c"][0]["k"] == "This"
+                                              for x in f.walk())}
+            W = {f.usr: {a for a in eff.rw(f)[1] if a.startswith(K + "::")} for f in fs}
+            allw = set().union(*W.values())
+            for a in sorted(allw):
+                writers = [f for f in fs if a in W[f.usr] or f.usr in whole]
+                missing = [f for f in fs if f not in writers]
+                if len(writers) < 2:
+                    continue
+                n += 1
+                bad = len(missing) == 1
+                if bad:
+                    chk.analysed(missing[0])
+                chk.ob("B", "%s: every `%s*` builder sets %s" % (K, pre, a.split("::")[-1]), (missing[0] if bad else fs[0]).loc(), not bad,
+                       detail=None if not bad else "%s set it, %s does not: an object built through %s keeps the value of its previous / default state" % (
+                           ", ".join(sorted({f.short for f in writers})), missing[0].short, missing[0].short),
+                       key="B|%s|%s|%s" % (K, pre, a.split("::")[-1]), nontrivial=bad)
+    chk.floor("B", n, 6)
+
+
 def main(tier):
     chk = Check("C08", tier,
                 "Static writer/reader agreement of the neutral-file stream of each serialisable class (structural simulation of the "
@@ -335,7 +374,7 @@ def main(tier):
     else:
         cov = os.path.join(REPO, "src/Covariances")
         extra = [os.path.join(cov, x) for x in sorted(os.listdir(cov)) if x.endswith(".cpp") and (x.startswith("Cov") or x in ("ACovFunc.cpp", "ACov.cpp", "ACovAnisoList.cpp"))]
-        extra += [os.path.join(REPO, u) for u in ("src/Basic/Tensor.cpp", "src/Basic/Rotation.cpp", "src/Space/SpaceTarget.cpp", "src/Geometry/BiTargetCheckDistance.cpp")
+        extra += [os.path.join(REPO, u) for u in ("src/Basic/Tensor.cpp", "src/Basic/Rotation.cpp", "src/Space/SpaceTarget.cpp", "src/Geometry/BiTargetCheckDistance.cpp", "src/Basic/Indirection.cpp")
                   if os.path.exists(os.path.join(REPO, u))]
         extra = [u for u in extra if u not in units]
         oprog = Program().load_dir(extract(extra, "C08o-" + tier))
@@ -344,6 +383,7 @@ def main(tier):
         chk.units += [u for u in oprog.units if u not in chk.units]
     c08_order.rule_O(oprog, chk, 2)
     rule_K(prog, chk)
+    rule_B(oprog, chk)
     return chk.finish()
 
 
